@@ -238,7 +238,9 @@ theorem store_refuses_agree_iff (lastIdx : Nat) :
       have hlt : (lastIdx + 1) % 2^64 < 2^64 := Nat.mod_lt _ (by decide)
       have hne : lastIdx + 1 ≠ (lastIdx + 1) % 2^64 := by omega
       have hpos : lastIdx > 0 := by omega
-      simp [Generated.storeRefusesIndex, u64, hne, hpos]
+      unfold Generated.storeRefusesIndex u64
+      simp only [Bool.or_eq_true, Bool.and_eq_true, decide_eq_true_eq, Bool.not_eq_true', decide_eq_false_iff_not, Nat.reducePow] at *
+      all_goals omega
     exact (h1 h2).2 rfl
   · intro h idx
     exact store_refuses_eq_source lastIdx idx h
